@@ -24,7 +24,7 @@ ASSUMPTIONS = ["an instance's key is recovered from the element values it reads 
                "vp/model.py standalone simulation defines 'the mapped function run alone'; boundary inputs already valid at "
                "instance start are sampled (read as ticked) at that cycle, per the documented sampled-start rule",
                "g++-12 -O1 build of the working tree with harness-side shims"]
-FLOORS = {"dictionary_repoints_with_surviving_instances": {"quick": 60, "thorough": 900}, "epochs_checked": {"quick": 1200, "thorough": 20000}, "readd_epochs": {"quick": 150, "thorough": 2500},
+FLOORS = {"explicit_key_set_epochs": {"quick": 150, "thorough": 2500}, "explicit_keys_mapped_before_their_element_exists": {"quick": 60, "thorough": 1000}, "dictionary_repoints_with_surviving_instances": {"quick": 60, "thorough": 900}, "epochs_checked": {"quick": 1200, "thorough": 20000}, "readd_epochs": {"quick": 150, "thorough": 2500},
           "instance_runs_compared": {"quick": 8000, "thorough": 120000}, "output_ticks_compared": {"quick": 2000, "thorough": 35000},
           "timer_runs_in_instances": {"quick": 300, "thorough": 5000}, "map_key_throws": {"quick": 50, "thorough": 800}, "two_dictionary_epochs": {"quick": 80, "thorough": 1200},
           "key_left_one_dictionary_only": {"quick": 40, "thorough": 600},
@@ -291,6 +291,80 @@ def check_f33(case, tr):
     return res
 
 
+def gen_explicit_keys_case(rng, name):
+    """map_ with an EXPLICIT key set (__keys__): the children's lifetime follows the key set, the dictionary only feeds elements. Keys
+    enter the set before their element exists (the child starts without input), after it (the element is sampled), leave while
+    the dictionary still holds the element, return (fresh state); the dictionary holds further keys that are never mapped."""
+    for _ in range(50):
+        c = gen_case10(rng, name, 0)
+        if c.meta["kind"] == "fn1":
+            break
+    start, end = c.start, c.end
+    universe = list(range(1, rng.choice([3, 4, 6]) + 1))
+    D, K, seq = {}, set(), {}
+    dsc, ksc = [], []
+    for t in sorted(rng.sample(range(start, end), min(end - start, rng.choice([8, 14, 20])))):
+        dops, kops, touched = [], [], set()
+        for _ in range(rng.choice([1, 1, 2, 3])):
+            k = rng.choice(universe)
+            if k in touched:
+                continue
+            touched.add(k)
+            r = rng.random()
+            if r < 0.5:
+                seq[k] = seq.get(k, 0) + 1
+                D[k] = k * 1000 + seq[k] % 1000
+                dops.append(f"[{k}]={D[k]}")
+            elif r < 0.75:
+                if k in K:
+                    K.discard(k)
+                    kops.append(f"-{k}")
+                else:
+                    K.add(k)
+                    kops.append(f"+{k}")
+            elif k in D and k not in K:
+                del D[k]
+                dops.append(f"x[{k}]")          # (the dictionary never loses an element whose key is mapped)
+        if dops:
+            dsc.append(f"{t}|" + ",".join(dops))
+        if kops:
+            ksc.append(f"{t}|" + ",".join(kops))
+    c.cscripts[1], c.cscripts[2] = dsc, ksc
+    c.graphs["main"] = [S("d", "csrc", shape="tsd", uid=1), S("ks", "csrc", shape="tss", uid=2), S("m", "map", "d", fn="fn1:0", keys="ks"),
+                        S("", "cmirror", "m", uid=11)]
+    c.meta["explicit_keys"] = 1
+    return c
+
+
+def explicit_key_epochs(wl_dict, wl_keys, end):
+    """key -> epochs {start, stop, ticks}: an instance lives while its key is in the explicit key set; its element stream is the
+    dictionary's element under that key (its current value counts as a tick when the instance is created)."""
+    D, live, out = {}, {}, {}
+    for t in sorted(set(wl_dict) | set(wl_keys)):
+        written = set()
+        for op in wl_dict.get(t, []):
+            if op.startswith("x["):
+                D.pop(int(op[2:op.index("]")]), None)
+            elif op != "c":
+                k = int(op[1:op.index("]")])
+                D[k] = int(op[op.index("=") + 1:])
+                written.add(k)
+        for op in wl_keys.get(t, []):
+            k = int(op[1:])
+            if op[0] == "+" and k not in live:
+                live[k] = {"key": k, "start": t, "stop": None, "ticks": []}
+                out.setdefault(k, []).append(live[k])
+                if k in D:
+                    live[k]["ticks"].append((t, D[k]))
+                    written.discard(k)
+            elif op[0] == "-" and k in live:
+                live.pop(k)["stop"] = t
+        for k in written:
+            if k in live and not (live[k]["ticks"] and live[k]["ticks"][-1][0] == t):
+                live[k]["ticks"].append((t, D[k]))
+    return out
+
+
 def gen_nested_map_case(rng, name):
     """A map_ whose instances each run an INNER map_ over a shared dictionary handed to them as a whole: an inner map is created
     whenever an outer key appears (late, or again after a removal) and then has to pick up every key the shared dictionary
@@ -387,6 +461,7 @@ def generate(rng, tier, seed):
     cases += [gen_nested_map_case(rng, f"c10n_{seed}_{k}") for k in range(n // 5)]
     cases += [gen_repoint_map_case(rng, f"c10r_{seed}_{k}", k) for k in range(n // 4)]
     cases.append(f33_witness(f"c10_{seed}_witnessF33"))
+    cases += [gen_explicit_keys_case(rng, f"c10k_{seed}_{k}") for k in range(n // 4)]
     # failure isolation between keys: the keyed-map fault pairs of C15 (fault-free twin + per-key captured faults)
     from .c15 import gen_map_pair
     k = got = 0
@@ -534,6 +609,8 @@ def check(case, tr):
     if case.meta.get("repoint"):
         wl, repoints = repoint_write_log(case, run)
     eps = epochs_from_writes(wl, case.end)
+    if case.meta.get("explicit_keys"):
+        eps = explicit_key_epochs(wl, dict(write_log(run).get(2, [])), case.end)
     if case.meta["kind"] == "fnk2":
         eps = union_epochs(wl, dict(write_log(run).get(2, [])), case.end)
     bticks = []
@@ -568,6 +645,28 @@ def check(case, tr):
             continue
         key = firsts[0][1][0][1] // (1 if case.meta["kind"] == "fnk2" else 1000)
         inst_of[(key, gstart.get(gid))] = gid
+    if case.meta.get("explicit_keys"):
+        # instances whose element never arrives cannot be told apart by what they read: they are matched to the epochs without any
+        # element tick that start in the same cycle (such instances behave identically - the function does not read the key)
+        named = set(inst_of.values())
+        anon = {}
+        for gid in inst_runs:
+            if gid not in named and gparent.get(gid) == 0:
+                anon.setdefault(gstart.get(gid), []).append(gid)
+        for gid in gstart:
+            if gid not in named and gid not in inst_runs and gparent.get(gid) == 0:
+                inst_runs[gid] = {}
+                anon.setdefault(gstart.get(gid), []).append(gid)
+        eps_last = [ep["stop"] for lst in eps.values() for ep in lst if ep["stop"] is not None]
+        for key, lst in sorted(eps.items()):
+            for ep in lst:
+                if (key, ep["start"]) not in inst_of and not ep["ticks"] and anon.get(ep["start"]):
+                    pool = anon[ep["start"]]
+                    same_stop = [g for g in pool if gstop.get(g) == ep["stop"]] if ep["stop"] is not None else \
+                                [g for g in pool if gstop.get(g) is None or gstop.get(g) >= max(eps_last, default=0)]
+                    g = (same_stop or pool)[0]
+                    pool.remove(g)
+                    inst_of[(key, ep["start"])] = g
     n_epochs = readds = runs_cmp = out_cmp = timer_runs = phantom = two_dict = partial_leave = 0
     exp_out = {}              # key -> list of (t, v) expected output ticks over all epochs, with epoch marks
     for key, lst in eps.items():
@@ -660,6 +759,11 @@ def check(case, tr):
                     "output_ticks_compared": out_cmp, "timer_runs_in_instances": timer_runs, "phantom_slots_seen": phantom,
                     "two_dictionary_epochs": two_dict, "key_left_one_dictionary_only": partial_leave}
     res.nontrivial = n_epochs >= 3 and readds >= 1
+    if case.meta.get("explicit_keys"):
+        res.counters["explicit_key_set_epochs"] = n_epochs
+        res.counters["explicit_keys_mapped_before_their_element_exists"] = sum(
+            1 for lst in eps.values() for ep in lst if not ep["ticks"] or ep["ticks"][0][0] > ep["start"])
+        res.nontrivial = n_epochs >= 2
     if case.meta.get("repoint"):
         res.counters["dictionary_repoints_with_surviving_instances"] = repoints
         res.counters["instances_followed_across_repoints"] = n_epochs if repoints else 0
